@@ -16,9 +16,9 @@ func init() {
 			e.PoolCapacity = []uint32{1, 2, 1024}[e.Tape.Choose(3)]
 			e.Real("message/pool.Pool (capacity > 0, LIFO reuse)")
 			run(e)
-			e.mu.Lock()
+			e.imu.Lock()
 			rec, rel := e.Pool.Recycled, e.Pool.Releases
-			e.mu.Unlock()
+			e.imu.Unlock()
 			if rec > 0 {
 				e.NonTrivial()
 				e.Probe("pool.objectRecycled")
